@@ -549,6 +549,20 @@ func TestVerifC11Process(t *testing.T) {
 			defer wg.Done()
 			obs := c11ProcObs{Kind: kind, Fired: []int{0, 0}}
 			start := runCommand([]string{os.Args[0], "verif-helper", "proc", kind, "-"})
+			inproc := strings.HasPrefix(kind, "inproc-")
+			release := make(chan struct{})
+			defer close(release)
+			if inproc {
+				// a peer that runs in process (how the runner starts the reference peers): LocalProcess.tla
+				start = runInProcess([]string{"verif-inproc"}, func(ctx context.Context, _ []string, _ io.ReadCloser, _, _ io.WriteCloser) error {
+					if kind == "inproc-polite" {
+						<-ctx.Done()
+						return nil
+					}
+					<-release // stubborn: does not come down when asked to (until the test is over)
+					return nil
+				})
+			}
 			proc, err := start(context.Background(), false)
 			if err != nil {
 				obs.StartErr = err.Error()
@@ -583,6 +597,18 @@ func TestVerifC11Process(t *testing.T) {
 			obs.Result = "exited"
 			if res != nil && strings.Contains(res.Error(), "took too long") {
 				obs.Result = "took-too-long"
+			}
+			if inproc && errors.Is(res, context.DeadlineExceeded) {
+				obs.Result = "gave-up"
+			}
+			if inproc && obs.Result == "gave-up" {
+				// every call of result() has its own grace period: nothing to compare, and no callback is due
+				obs.Stable = true
+				time.Sleep(100 * time.Millisecond)
+				mu.Lock()
+				out.Put(obs)
+				mu.Unlock()
+				return
 			}
 			t1 := time.Now()
 			res2 := proc.result()
